@@ -560,14 +560,15 @@ type errCase struct {
 	Status int
 	Msg    string
 	HasMsg bool
+	Wrap   int // 0: the API error itself; 1: wrapped with %w; 2: joined with another error; 3: wrapped twice
 }
 
 func TestC19_APIError(t *testing.T) {
 	pbt.Run(t, pbt.Config{Prop: "C19", Unit: "TestC19_APIError",
-		Rule: "status 0..999 x message (absent, or valid UTF-8 of 1..60 runes incl. quotes, angle brackets, newlines); oracle: DecodeError(EncodeError(e)) has the same status and message text; FromResponse(status, body) has that status and the trimmed body as message. Non-trivial: status != 0 and a message present; distinct by case.",
+		Rule: "status 0..999 x message (absent, or valid UTF-8 of 1..60 runes incl. quotes, angle brackets, newlines); the API error handed to EncodeError as it is, wrapped with %w (once, twice) or joined with another error; oracle: DecodeError(EncodeError(e)) has the same status and message text (for a wrapped error: the status of the API error in the chain and the wrapper's text); FromResponse(status, body) has that status and the trimmed body as message. Non-trivial: status != 0 and a message present; distinct by case.",
 	}, func(t *rapid.T) errCase {
 		return errCase{Status: rapid.OneOf(rapid.IntRange(0, 999), rapid.SampledFrom([]int{0, 400, 404, 429, 500, 503})).Draw(t, "status"),
-			HasMsg: rapid.IntRange(0, 4).Draw(t, "hasmsg") > 0, Msg: rapid.StringN(1, 60, -1).Draw(t, "msg")}
+			HasMsg: rapid.IntRange(0, 4).Draw(t, "hasmsg") > 0, Msg: rapid.StringN(1, 60, -1).Draw(t, "msg"), Wrap: rapid.SampledFrom([]int{0, 0, 0, 1, 2, 3}).Draw(t, "wrap")}
 	}, func(c errCase) pbt.Result {
 		res := pbt.Result{NonTrivial: c.Status != 0 && c.HasMsg}
 		if !utf8.ValidString(c.Msg) {
@@ -580,6 +581,29 @@ func TestC19_APIError(t *testing.T) {
 		e := apierror.New(inner, c.Status)
 		if c.Status == 0 && !c.HasMsg {
 			return res
+		}
+		// handlers pass errors up through wrappers before they are encoded: the status is that of the API error
+		// found in the chain, the message that of the error handed in
+		var top error = e
+		switch c.Wrap {
+		case 1:
+			top = fmt.Errorf("lookup failed: %w", e)
+		case 2:
+			top = errors.Join(errors.New("while closing"), e)
+		case 3:
+			top = fmt.Errorf("handler: %w", fmt.Errorf("lookup failed: %w", e))
+		}
+		if c.Wrap != 0 {
+			res.Classes = append(res.Classes, "wrapped")
+			wd := apierror.DecodeError(apierror.EncodeError(top))
+			var wae *apierror.Error
+			ws := 0
+			if errors.As(wd, &wae) {
+				ws = wae.Status()
+			}
+			if wd == nil || ws != c.Status || wd.Error() != top.Error() {
+				return merge(res, pbt.Failf("DecodeError(EncodeError(wrapped API error: status %d, message %q)) = (status %d, message %v)", c.Status, top.Error(), ws, wd))
+			}
 		}
 		d := apierror.DecodeError(apierror.EncodeError(e))
 		if d == nil {
